@@ -421,6 +421,13 @@ def install(ex):
             return a[0]
         if re.match(r"^<.* as (std::convert::)?AsRef<.*>>::as_ref$", c): return a[0]
         if re.match(r"^<.* as Borrow<.*>>::borrow$", c): return a[0]
+        mchar = re.match(r"^(core::)?char::methods::<impl char>::(is_uppercase|is_lowercase|is_alphabetic|is_numeric|is_alphanumeric|is_whitespace|is_ascii_digit|is_ascii_uppercase|is_ascii_lowercase)$", c)
+        if mchar:
+            ch = deref(a[0])
+            if not isinstance(ch, str): raise Unsupported("char predicate on a symbolic char")
+            return {"is_uppercase": ch.isupper(), "is_lowercase": ch.islower(), "is_alphabetic": ch.isalpha(), "is_numeric": ch.isnumeric(), "is_alphanumeric": ch.isalnum(), "is_whitespace": ch.isspace(),
+                    "is_ascii_digit": ch.isdigit() and ch.isascii(), "is_ascii_uppercase": ch.isupper() and ch.isascii(), "is_ascii_lowercase": ch.islower() and ch.isascii()}[mchar.group(2)]
+        if c == "<Chars<'_> as Iterator>::next" or re.match(r"^<(std::str::)?Chars<.*> as Iterator>::next$", c): return deref(a[0]).nxt()
         if c in ("std::process::abort",): raise Panic("abort")
         if c == "core::hint::unreachable_unchecked": raise Panic("unreachable_unchecked")
         if c in ("drop", "std::mem::drop", "core::mem::drop"): return TupleV([])
